@@ -20,6 +20,10 @@ import (
 	"bufio"
 	"encoding/json"
 	"fmt"
+	"go/ast"
+	"go/parser"
+	"go/printer"
+	"go/token"
 	"io"
 	"net"
 	"os"
@@ -277,6 +281,130 @@ func c12FakePeer(c *net.UnixConn, speaksFirst bool, script []c12Send, expect int
 	c.Close()
 }
 
+// ---- every handshake call runs under a watchdog --------------------------------------------------
+// newSession / Server must return — success or error — within InitializeTimeout.  A call that has not
+// returned after the timeout plus a generous slack is recorded as hung and abandoned (the goroutine is
+// left behind; it is unblocked later by closing the connection), so that a handshake that never returns
+// cannot stall the whole harness.
+const c12HangSig = "C12:handshake-call-does-not-return-within-the-timeout"
+
+func c12Watchdog(conf *Config) time.Duration {
+	return conf.InitializeTimeout + c12Slack + 2*time.Second
+}
+
+func c12Handshake(conf *Config, conn net.Conn, client bool) (s *Session, err error, hung bool) {
+	type res struct {
+		s   *Session
+		err error
+	}
+	ch := make(chan res, 1)
+	go func() {
+		s, e := newSession(conf, conn, client)
+		ch <- res{s, e}
+	}()
+	select {
+	case r := <-ch:
+		return r.s, r.err, false
+	case <-time.After(c12Watchdog(conf)):
+		go func() { // whenever it does come back: do not leave a session behind
+			if r := <-ch; r.s != nil {
+				r.s.Close()
+			}
+		}()
+		return nil, fmt.Errorf("handshake call did not return within %v (InitializeTimeout %v)", c12Watchdog(conf), conf.InitializeTimeout), true
+	}
+}
+
+// a child process in a process group of its own, killed as a group, whose pipes cannot keep us waiting
+func c12ChildCmd(env ...string) *exec.Cmd {
+	cmd := exec.Command(os.Args[0], "-test.run", "^TestVerif_C12$")
+	cmd.Env = append(os.Environ(), env...)
+	cmd.SysProcAttr = &syscall.SysProcAttr{Setpgid: true}
+	cmd.WaitDelay = 2 * time.Second
+	return cmd
+}
+
+func c12KillGroup(cmd *exec.Cmd) {
+	if cmd.Process != nil {
+		syscall.Kill(-cmd.Process.Pid, syscall.SIGKILL)
+		cmd.Process.Kill()
+	}
+}
+
+// the initializer selection (getProtocolInitializer: blocking socket reads) and Init must run inside the
+// goroutine that initProtocol starts AFTER it armed the InitializeTimeout timer, and the select must wait on
+// that timer.  Checked on the current source of session.go; returns what is wrong ("" = as modelled).
+func c12InitProtocolShape() string {
+	fset := token.NewFileSet()
+	f, err := parser.ParseFile(fset, "session.go", nil, 0)
+	if err != nil {
+		return "cannot parse session.go: " + err.Error()
+	}
+	for _, d := range f.Decls {
+		fd, ok := d.(*ast.FuncDecl)
+		if !ok || fd.Name.Name != "initProtocol" || fd.Body == nil {
+			continue
+		}
+		timerPos, goPos := token.NoPos, token.NoPos
+		var goLit *ast.FuncLit
+		timerSelect := false
+		ast.Inspect(fd.Body, func(n ast.Node) bool {
+			switch x := n.(type) {
+			case *ast.CallExpr:
+				if se, ok := x.Fun.(*ast.SelectorExpr); ok && se.Sel.Name == "NewTimer" && timerPos == token.NoPos {
+					var b strings.Builder
+					printer.Fprint(&b, fset, x)
+					if strings.Contains(b.String(), "InitializeTimeout") {
+						timerPos = x.Pos()
+					}
+				}
+			case *ast.GoStmt:
+				if lit, ok := x.Call.Fun.(*ast.FuncLit); ok && goLit == nil {
+					goPos, goLit = x.Pos(), lit
+				}
+			case *ast.CommClause:
+				var b strings.Builder
+				if x.Comm != nil {
+					printer.Fprint(&b, fset, x.Comm)
+				}
+				if strings.Contains(b.String(), ".C") {
+					timerSelect = true
+				}
+			}
+			return true
+		})
+		if timerPos == token.NoPos {
+			return "initProtocol arms no timer with InitializeTimeout"
+		}
+		if goLit == nil {
+			return "initProtocol starts no initializer goroutine"
+		}
+		if timerPos > goPos {
+			return "the InitializeTimeout timer is armed after the initializer goroutine is started"
+		}
+		if !timerSelect {
+			return "initProtocol's select does not wait on the timer"
+		}
+		bad := ""
+		ast.Inspect(fd.Body, func(n ast.Node) bool {
+			ce, ok := n.(*ast.CallExpr)
+			if !ok {
+				return true
+			}
+			se, ok := ce.Fun.(*ast.SelectorExpr)
+			if !ok || (se.Sel.Name != "getProtocolInitializer" && se.Sel.Name != "Init") {
+				return true
+			}
+			if ce.Pos() < goLit.Pos() || ce.End() > goLit.End() {
+				bad = se.Sel.Name + " is called outside the goroutine that runs under the InitializeTimeout timer"
+			}
+			return true
+		})
+		return bad
+	}
+	return "initProtocol not found in session.go"
+}
+
 // ---- census helpers -------------------------------------------------------------------------
 func c12SockInode(c net.Conn) string {
 	sc, ok := c.(syscall.Conn)
@@ -525,10 +653,18 @@ func c12PeerSpecs() []c12PeerSpec {
 		{name: "c-unexpected-polling", expect: 1, client: true, mt: MemMapTypeMemFd, script: S(h(3, typePolling))},
 		{name: "c-ackshare-instead-of-ackready", expect: 2, client: true, mt: MemMapTypeMemFd, script: S(exch(3), h(3, typeAckShareMemory))},
 		{name: "c-ackready-twice", expect: 3, client: true, mt: MemMapTypeMemFd, script: S(exch(3), h(3, typeAckReadyRecvFD), h(3, typeAckReadyRecvFD))},
+		// the peer stops INSIDE an 8-byte header (the initializer selection's first read on the client)
+		{name: "c-stall-inside-version-reply", expect: 1, client: true, mt: MemMapTypeMemFd, script: S(c12Send{data: c12Hdr(headerSize, 3, typeExchangeProtoVersion)[:3]})},
+		{name: "c-close-inside-version-reply", expect: 1, client: true, mt: MemMapTypeMemFd, close: true, script: S(c12Send{data: c12Hdr(headerSize, 3, typeExchangeProtoVersion)[:5]})},
+		{name: "c-stall-inside-ackready", expect: 2, client: true, mt: MemMapTypeMemFd, script: S(exch(3), c12Send{data: c12Hdr(headerSize, 3, typeAckReadyRecvFD)[:7]})},
 		{name: "c-file-silent-server", expect: 1, wantVer: 2, client: true, mt: MemMapTypeDevShmFile, script: none},
 		// real server against a fake client
 		{name: "s-silent", script: none},
 		{name: "s-close-at-once", script: none, close: true},
+		// the peer stops INSIDE its first 8-byte header (the initializer selection's first read on the server)
+		{name: "s-stall-inside-first-header", script: S(c12Send{data: c12Hdr(headerSize, 3, typeExchangeProtoVersion)[:3]})},
+		{name: "s-close-inside-first-header", close: true, script: S(c12Send{data: c12Hdr(headerSize, 3, typeExchangeProtoVersion)[:6]})},
+		{name: "s-stall-inside-metadata-header", expect: 1, script: S(exch(3), c12Send{data: c12Hdr(headerSize+20, 3, typeShareMemoryByMemfd)[:4]})},
 		{name: "s-stall-after-version", expect: 1, script: S(exch(3))},
 		{name: "s-close-after-version", expect: 1, script: S(exch(3)), close: true},
 		{name: "s-stall-before-fds", expect: 2, createMemfd: true, script: func(q, b string, bf, qf int) []c12Send {
@@ -649,11 +785,38 @@ func c12RunPeer(id int, sp c12PeerSpec) c12Case {
 	done := make(chan []c12Frame, 1)
 	go c12FakePeer(fake.(*net.UnixConn), !sp.client, script, sp.expect, sp.close, hold, done)
 	t0 := time.Now()
-	var sess *Session
-	if sp.client {
-		sess, err = newSession(conf, real, true)
-	} else {
-		sess, err = newSession(conf, real, false)
+	sess, err, hung := c12Handshake(conf, real, sp.client)
+	if hung {
+		// the concrete fault script (c.Script, c.Close) is the replay: the peer stalled after its last frame
+		c.Class = 4
+		how := "fell silent (socket left open)"
+		if sp.close {
+			how = "closed its socket"
+		}
+		c.Err = fmt.Sprintf("%s; fault script: the scripted peer sent %d frame(s) of the exchange (0 = silent from its very first byte; a last frame shorter than %d bytes = stopped inside a header) and then %s", err.Error(), len(script), headerSize, how)
+		c.Oracle = append(c.Oracle, c12HangSig)
+		c.Feat = append(c.Feat, "handshake-call-hung")
+		close(hold)
+		fake.Close()
+		real.Close()
+		select {
+		case fr := <-done:
+			if fr != nil {
+				c.Frames = fr
+			}
+		case <-time.After(3 * time.Second):
+		}
+		if hq != nil {
+			hq.unmap()
+		}
+		if hb != nil {
+			if sp.removeB {
+				hb.unmap()
+			} else {
+				addGlobalBufferManagerRefCount(bpath, -1)
+			}
+		}
+		return c
 	}
 	el := time.Since(t0)
 	if sp.client {
@@ -781,13 +944,24 @@ func c12RunPair(id int, sp c12PairSpec) c12Case {
 		defer wg.Done()
 		t0 := time.Now()
 		sc := c12Conf(id, MemMapTypeDevShmFile, c12InitTimeout)
-		ss, serr = Server(srv, sc)
+		var hung bool
+		ss, serr, hung = c12Handshake(sc, srv, false)
+		if hung {
+			c.Oracle = append(c.Oracle, c12HangSig)
+			srv.Close()
+			cli.Close()
+		}
 		c.ElapsedS = int64(time.Since(t0) / time.Millisecond)
 	}
 	runClient := func() {
 		defer wg.Done()
 		t0 := time.Now()
-		cs, cerr = newSession(conf, cli, true)
+		var hung bool
+		cs, cerr, hung = c12Handshake(conf, cli, true)
+		if hung {
+			c.Oracle = append(c.Oracle, c12HangSig)
+			srv.Close()
+		}
 		c.ElapsedC = int64(time.Since(t0) / time.Millisecond)
 		if cerr != nil {
 			cli.Close()
@@ -948,8 +1122,7 @@ func c12RunXproc(id int, mt MemMapType) c12Case {
 	c := c12Case{ID: id, Kind: "xproc", Name: fmt.Sprintf("xproc-mt%d", mt), MT: int(mt), Unix: true}
 	sock := filepath.Join(c12Scratch, fmt.Sprintf("x%d.sock", id))
 	os.Remove(sock)
-	cmd := exec.Command(os.Args[0], "-test.run", "^TestVerif_C12$")
-	cmd.Env = append(os.Environ(), "VERIF_C12_CHILD=1", "VERIF_C12_SOCK="+sock)
+	cmd := c12ChildCmd("VERIF_C12_CHILD=1", "VERIF_C12_SOCK="+sock)
 	stdin, _ := cmd.StdinPipe()
 	stdout, _ := cmd.StdoutPipe()
 	if err := cmd.Start(); err != nil {
@@ -963,7 +1136,7 @@ func c12RunXproc(id int, mt MemMapType) c12Case {
 		select {
 		case <-done:
 		case <-time.After(5 * time.Second):
-			cmd.Process.Kill()
+			c12KillGroup(cmd)
 		}
 		os.Remove(sock)
 	}()
@@ -1007,7 +1180,11 @@ func c12RunXproc(id int, mt MemMapType) c12Case {
 	}
 	conf := c12Conf(id, mt, 8*time.Second)
 	c.Q, c.B = c12Ints([]byte(conf.QueuePath)), c12Ints([]byte(conf.ShareMemoryPathPrefix+bufferPathSuffix))
-	cs, cerr := newSession(conf, conn, true)
+	cs, cerr, hung := c12Handshake(conf, conn, true)
+	if hung {
+		c.Oracle = append(c.Oracle, c12HangSig)
+		conn.Close()
+	}
 	c.CClass = c12Class(cerr)
 	l, ok := expect("OK")
 	if !ok {
@@ -1079,7 +1256,14 @@ func c12RunCensus(id int, client bool) c12Case {
 	c.Census["goroutines_before"] = runtime.NumGoroutine()
 	conf := c12Conf(id, MemMapTypeMemFd, c12StallTimeout)
 	t0 := time.Now()
-	sess, err := newSession(conf, real, client)
+	sess, err, hung := c12Handshake(conf, real, client)
+	if hung {
+		c.Class, c.Err = 4, err.Error()
+		c.Oracle = append(c.Oracle, c12HangSig)
+		fake.Close()
+		real.Close()
+		return c
+	}
 	el := time.Since(t0)
 	c.ElapsedC = int64(el / time.Millisecond)
 	c.Class = c12Class(err)
@@ -1209,10 +1393,16 @@ func c12Establish(id int, tag string, conf *Config) (cs, ss *Session, err error)
 	var serr error
 	done := make(chan struct{})
 	go func() {
-		ss, serr = Server(srv, c12Conf(id, MemMapTypeDevShmFile, 8*time.Second))
+		var hung bool
+		if ss, serr, hung = c12Handshake(c12Conf(id, MemMapTypeDevShmFile, 8*time.Second), srv, false); hung {
+			cli.Close()
+		}
 		close(done)
 	}()
-	cs, err = newSession(conf, cli, true)
+	var hung bool
+	if cs, err, hung = c12Handshake(conf, cli, true); hung {
+		srv.Close()
+	}
 	<-done
 	if err == nil {
 		err = serr
@@ -1240,8 +1430,11 @@ func c12FailingSibling(id int, conf *Config) error {
 			srv.Close()
 		}()
 	}
-	s, err := newSession(conf, cli, true)
+	s, err, hung := c12Handshake(conf, cli, true)
 	cli.Close()
+	if hung {
+		return fmt.Errorf(c12HangSig)
+	}
 	if err == nil {
 		s.Close()
 		return fmt.Errorf("harness: the sibling establishment did not fail")
@@ -1364,9 +1557,20 @@ func c12RunSibling(id int, mt MemMapType, partB bool, out *vout) {
 func c12Isolated(id int, mt MemMapType, partB bool) c12Case {
 	tmp := filepath.Join(c12Scratch, fmt.Sprintf("iso%d.jsonl", id))
 	os.Remove(tmp)
-	cmd := exec.Command(os.Args[0], "-test.run", "^TestVerif_C12$")
-	cmd.Env = append(os.Environ(), "VERIF_C12_CHILD=sibling", "VERIF_OUT="+tmp, fmt.Sprintf("VERIF_C12_SPEC=%d|%d|%d", id, mt, map[bool]int{false: 0, true: 1}[partB]))
-	outb, _ := cmd.CombinedOutput()
+	cmd := c12ChildCmd("VERIF_C12_CHILD=sibling", "VERIF_OUT="+tmp, fmt.Sprintf("VERIF_C12_SPEC=%d|%d|%d", id, mt, map[bool]int{false: 0, true: 1}[partB]))
+	var ob strings.Builder
+	cmd.Stdout, cmd.Stderr = &ob, &ob
+	if err := cmd.Start(); err == nil {
+		waited := make(chan struct{})
+		go func() { cmd.Wait(); close(waited) }()
+		select {
+		case <-waited:
+		case <-time.After(90 * time.Second):
+			c12KillGroup(cmd)
+			<-waited
+		}
+	}
+	outb := []byte(ob.String())
 	defer os.Remove(tmp)
 	defer func() {
 		if cmd.Process != nil {
@@ -1428,6 +1632,7 @@ func TestVerif_C12(t *testing.T) {
 	defer os.RemoveAll(c12Scratch)
 	r := newVrand(seed)
 	id := 0
+	out.emit(c12Case{ID: -1, Kind: "source", Name: "initProtocol-runs-the-initializer-selection-under-the-timer", Err: c12InitProtocolShape()})
 	c12CodecCases(r, n, &id, out)
 
 	var mu sync.Mutex
